@@ -423,22 +423,29 @@ Proof.
     apply in_map_iff. exists p; tauto.
 Qed.
 
+(* ---------- report/ removed by hand ---------- *)
+Lemma drop_WF n s : WF n s -> WF n (drop s).
+Proof.
+  intros [Wk Wp Wm Wlt Wc Wf]. unfold drop. constructor; simpl; auto; discriminate.
+Qed.
+
 (* ---------- histories ---------- *)
 Fixpoint runs (ops : list op) : nat :=
-  match ops with [] => 0 | Run _ :: r => S (runs r) | Delete _ :: r => runs r end.
+  match ops with [] => 0 | Run _ :: r => S (runs r) | Delete _ :: r => runs r | Drop :: r => runs r end.
 
 Lemma WF_init : WF 0 init_state.
 Proof. constructor; simpl; try constructor; try tauto; try discriminate. Qed.
 
 Lemma exec_WF ops : forall n s, WF n s -> exists s', exec ops n s = Some s' /\ WF (n + runs ops) s'.
 Proof.
-  induction ops as [|[l|k] r IH]; intros n s W; simpl.
+  induction ops as [|[l|k|] r IH]; intros n s W; simpl.
   - exists s. rewrite Nat.add_0_r. auto.
   - destruct (run_total l n s) as [s1 E]. rewrite E.
     destruct (run_spec l n s s1 W E) as [_ W1].
     destruct (IH (S n) s1 W1) as [s' [E' W']]. exists s'. split; auto.
     replace (n + S (runs r)) with (S n + runs r) by lia. auto.
   - apply IH. apply delete_WF; auto.
+  - apply IH. apply drop_WF; auto.
 Qed.
 
 Theorem histories_total ops : exists s, exec ops 0 init_state = Some s.
@@ -449,6 +456,14 @@ Theorem every_run_safe ops limit s s' :
 Proof.
   intros E R. destruct (exec_WF ops 0 init_state WF_init) as [s0 [E0 W]]. rewrite E in E0. inversion E0; subst s0.
   simpl in W. apply (run_spec limit (runs ops) s s' W R).
+Qed.
+
+(* a run started when report/ is gone leaves every archive where it is, whatever the limit *)
+Theorem run_without_report_keeps_archives ops limit s s' :
+  exec ops 0 init_state = Some s -> cur s = None -> run limit (runs ops) s = Some s' ->
+  arch s' = arch s /\ cur s' = Some (runs ops).
+Proof.
+  intros E C R. destruct (every_run_safe ops limit s s' E R) as [Hc Hf _ _ _ _ _ _]. split; auto.
 Qed.
 
 Theorem every_delete_exact k s : cur (delete k s) = cur s /\
